@@ -207,6 +207,58 @@ fn extreme_edit(rng: &mut Rng, len: usize) -> InputEdit {
 
 const KINDS: [&str; 7] = ["bytes", "query", "offsets", "huge", "cancel", "mix", "errors"];
 
+/// Text for the ambiguous grammar `c07glr` (and similar): statements `id id id <digit>` whose reading
+/// is only decided by the terminator (8 live stack versions), bracketed groups with three readings,
+/// and a good share of wrong / missing terminators and unbalanced brackets, so that error recovery
+/// starts while more than MAX_VERSION_COUNT versions are alive, versions get paused, merged and popped.
+fn glr_text(rng: &mut Rng, stmts: usize) -> Vec<u8> {
+    // Small tokens are inline subtrees (no allocation).  Two of the five identifier shapes must live
+    // on the heap — a 300-byte identifier, and an identifier after 20 blank lines of padding — and
+    // so must many terminators (18 blank lines before them), so that a reference dropped on a
+    // recovery path is visible to the allocator.
+    let long_id = "k".repeat(300);
+    let padded_id = format!("{}pad", "\n".repeat(20));
+    let mut out: Vec<String> = Vec::new();
+    let mut depth = 0usize;
+    for _ in 0..stmts {
+        let k = rng.below(100);
+        if k < 12 {
+            out.push("(".into());
+            depth += 1;
+        } else if k < 24 && depth > 0 {
+            out.push(format!(") {}", ["!", "?", ".", "", "9"][rng.below(5)]));
+            depth -= 1;
+        } else if k < 40 {
+            // `@ x y :` / `$ x y :`: two readings with different dynamic precedence reduce to the
+            // same symbol over the same span (stack_node_add_link replaces the weaker link)
+            let ids = [&"x"[..], "ab", &long_id, &padded_id];
+            out.push(format!(
+                "{} {} {} {}",
+                ["@", "$"][rng.below(2)],
+                ids[rng.below(4)],
+                ids[rng.below(4)],
+                [":", ":", ":", "", "9"][rng.below(5)]
+            ));
+        } else {
+            let mut st = String::new();
+            for _ in 0..rng.range(1, 6) {
+                st.push_str([&"x"[..], "ab", "q", &long_id, &padded_id][rng.below(5)]);
+                st.push(' ');
+            }
+            if rng.chance(3, 10) {
+                st.push_str(&"\n".repeat(18));
+            }
+            if rng.chance(6, 10) {
+                st.push_str(["1", "2", "3", "4", "5", "6", "7", "8"][rng.below(8)]);
+            } else {
+                st.push_str(["9", "#", "", "1 2", ")", "("][rng.below(6)]);
+            }
+            out.push(st);
+        }
+    }
+    out.join(" ").into_bytes()
+}
+
 /// One adversarial history; every handle is dropped before returning. Returns an optional dump.
 fn history(kind: &str, lang_id: &str, b: &zoo::Built, seed: u64, thorough: bool, dump: &mut Option<String>) {
     let mut rng = Rng::new(seed);
@@ -240,6 +292,10 @@ fn history(kind: &str, lang_id: &str, b: &zoo::Built, seed: u64, thorough: bool,
                 t.extend(std::iter::repeat(b')').take(depth - rng.below(3)));
                 t
             }
+        }
+        "glr" => {
+            let n = [6, 20, 60][rng.below(3)];
+            glr_text(&mut rng, n)
         }
         "errors" => {
             // a valid sentence with many local damages: drives error recovery with several stack versions
@@ -345,7 +401,7 @@ fn history(kind: &str, lang_id: &str, b: &zoo::Built, seed: u64, thorough: bool,
                     extreme = true;
                     extreme_edit(&mut rng, cur.len())
                 } else {
-                    let alpha: Vec<&[u8]> = vec![b"a", b"(", b")", b" ", b"1", b"\n", b"+"];
+                    let alpha: Vec<&[u8]> = vec![b"a", b"(", b")", b" ", b"1", b"\n", b"+", b"7 ", b"9", b"!", b"x y "];
                     let te = random_edit(&mut rng, &cur, &[], &alpha);
                     let new = te.apply(&cur);
                     let ie = te.input_edit(&cur, &new);
@@ -508,6 +564,14 @@ fn main() {
                 for _ in 0..per {
                     specs.push(format!("hist {kind} {lang} {}", rng.next() % 1_000_000_007));
                 }
+            }
+        }
+        for _ in 0..(if thorough { 600 } else { 120 }) {
+            specs.push(format!("hist glr c07glr {}", rng.next() % 1_000_000_007));
+        }
+        for kind in ["errors", "mix", "cancel"] {
+            for _ in 0..(if thorough { 60 } else { 10 }) {
+                specs.push(format!("hist {kind} c07glr {}", rng.next() % 1_000_000_007));
             }
         }
         for _ in 0..(if thorough { 60 } else { 12 }) {
